@@ -922,6 +922,46 @@ def parse_bindings(result, cls, model):
     return out
 
 
+def substituted_constant(v):
+    """``self.attr`` written on one arm of a conditional expression and a value that reads nothing of the object on the other:
+    (attr, the other value), else None"""
+    if not isinstance(v, Sym) or v.op != 'ifexp' or len(v.args) != 3:
+        return None
+    arms = v.args[1:]
+    for own, other in (arms, arms[::-1]):
+        if isinstance(own, SelfV) and len(own.path) == 1 and isinstance(own.path[0], str) and not compose_root(other):
+            return own.path[0].lstrip('_'), other
+    return None
+
+
+def stored_as_read(presult, a, attr):
+    """does every object the parser returns get the value read under ``a.key`` itself as the argument called ``attr``?"""
+    objs = []
+
+    def find_obj(v):
+        if isinstance(v, tuple) and v:
+            find_obj(v[0])
+        elif isinstance(v, ObjV):
+            objs.append(v)
+        elif isinstance(v, Sym) and v.op == 'phi':
+            for x in v.args:
+                find_obj(x)
+        else:
+            objs.append(None)
+    find_obj(presult.value)
+    if not objs or any(o is None for o in objs):
+        return False
+    for o in objs:
+        if getattr(o, 'explicit_init', None) is not None:
+            return False
+        got = [v for k, v in (o.ctor_args or {}).items() if isinstance(k, str) and k.lstrip('_') == attr]
+        if not got and a.key == attr and any(x is a.op.target and attr in x.keys and attr not in x.deleted for x in o.star if isinstance(x, ParserV)):
+            continue        # ``cls(**parser)``: the keyword is the parser key, the value what was read
+        if len(got) != 1 or not isinstance(got[0], FieldV) or got[0].key != a.key or got[0].parser is not a.op.target:
+            return False
+    return True
+
+
 def single_valued(op, model):
     """is the value read by this primitive converted into an enumeration with one member (nothing but that member parses)?"""
     from .values import ClassV
@@ -1038,6 +1078,12 @@ def compare_bindings(cmpn, presult, cls, model):
         if '*' in cattrs:
             continue
         if pattrs & cattrs:
+            sub = substituted_constant(b.val)
+            if sub is not None and stored_as_read(presult, a, sub[0]):
+                cmpn.diffs.append(Diff('binding', 'the composer writes %s in place of attribute %s for some of its values (%s), the parser stores '
+                                       'what it reads there unchanged: such an object does not come back from its own bytes' % (
+                                           show(sub[1])[:60], sub[0], show(b.val)[:100]), a, b))
+                continue
             # same root attribute; compare innermost names when both sides have one
             inner_p = {x[1] for x in bl if x[1] and x[0] in cattrs}
             inner_c = {r[1] for r in roots if r[0] in pattrs and r[1] != r[0]}
